@@ -258,6 +258,7 @@ class Model:
                     self.functions[m_.qname] = m_
                     self.pulled_up[m_.qname] = g.qname
         self._properties_to_methods(known, short)
+        self._generators_to_lists(known, short)
         new_helpers = {q: f for q, f in self.functions.items() if short(q) not in known and not f.name.startswith("__")}
         self.absorbed = {}
         self.inlined_into = {}
@@ -365,6 +366,74 @@ class Model:
         for name, defs in props.items():
             for c, f in defs:
                 f.node.decorator_list = [d for d in f.node.decorator_list if (_dotted(d) or "") != "property"]
+
+    def _generators_to_lists(self, known: set, short) -> None:
+        """A generator function the confirmed tree does not have, whose body only computes (no attribute / subscript stores, no calls
+        of methods that are not syntactically pure), yields the same sequence whether it is run lazily or ahead of its consumer: it is
+        analysed as the function that returns the list of the yielded values (`yield v` -> `out.append(v)`), which the helper inliner
+        and the loop idioms then treat like any collecting loop."""
+        from .symflow import _syntactically_pure  # late import
+        self.generators_as_lists = []
+        for q, f in list(self.functions.items()):
+            if short(q) in known:
+                continue
+            ys = [n for n in ast.walk(f.node) if isinstance(n, (ast.Yield, ast.YieldFrom))]
+            if not ys or any(isinstance(n, ast.YieldFrom) for n in ys):
+                continue
+            ok = True
+            parents: dict = {}
+            for p_ in ast.walk(f.node):
+                for ch in ast.iter_child_nodes(p_):
+                    parents[id(ch)] = p_
+            for y in ys:
+                par = parents.get(id(y))
+                if not isinstance(par, ast.Expr) or y.value is None:
+                    ok = False  # the value of the yield expression is used (send protocol) / bare yield
+            for n in ast.walk(f.node):
+                if isinstance(n, (ast.Attribute, ast.Subscript)) and isinstance(n.ctx, (ast.Store, ast.Del)):
+                    ok = False
+                if isinstance(n, (ast.Global, ast.Nonlocal, ast.Try, ast.With)):
+                    ok = False
+                if isinstance(n, ast.Call):
+                    nm = n.func.attr if isinstance(n.func, ast.Attribute) else n.func.id if isinstance(n.func, ast.Name) else None
+                    if nm is None:
+                        ok = False
+                    elif isinstance(n.func, ast.Attribute) and self.methods_named(nm) and not _syntactically_pure(self, nm):
+                        ok = False
+                    elif isinstance(n.func, ast.Attribute) and nm in ("append", "insert", "pop", "extend", "remove", "clear", "sort", "reverse", "update",
+                                                                        "setdefault", "add", "discard", "popitem", "write", "send"):
+                        ok = False
+            if not ok:
+                continue
+            import copy as _copy5
+            node = _copy5.deepcopy(f.node)
+            out_name = "_yielded"
+
+            class T(ast.NodeTransformer):
+                def visit_FunctionDef(self, n):
+                    return n if n is not node else self.generic_visit(n)
+
+                def visit_Lambda(self, n):
+                    return n
+
+                def visit_Expr(self, n: ast.Expr):
+                    if isinstance(n.value, ast.Yield):
+                        return ast.copy_location(ast.Expr(value=ast.Call(func=ast.Attribute(value=ast.Name(id=out_name, ctx=ast.Load()), attr="append",
+                                                                                              ctx=ast.Load()), args=[n.value.value], keywords=[])), n)
+                    return n
+
+                def visit_Return(self, n: ast.Return):
+                    return ast.copy_location(ast.Return(value=ast.Name(id=out_name, ctx=ast.Load())), n)
+            node = T().visit(node)
+            doc = [st for st in node.body[:1] if isinstance(st, ast.Expr) and isinstance(st.value, ast.Constant) and isinstance(st.value.value, str)]
+            rest = node.body[len(doc):]
+            init = ast.Assign(targets=[ast.Name(id=out_name, ctx=ast.Store())], value=ast.List(elts=[], ctx=ast.Load()), lineno=node.lineno)
+            node.body = doc + [init] + rest + [ast.Return(value=ast.Name(id=out_name, ctx=ast.Load()))]
+            node.returns = None
+            ast.fix_missing_locations(node)
+            f.__dict__.setdefault("raw_node", f.node)
+            f.node = node
+            self.generators_as_lists.append(short(q))
 
     _PURE_CALLS = {"len", "int", "bool", "abs", "min", "max", "pow", "round", "divmod"}
 
